@@ -43,6 +43,7 @@ def fresh_uid() -> uuid.UUID:
 # ------------------------------------------------------------------ scratch space
 _SCRATCH: Path | None = None
 _counter = 0
+_cases = 0
 
 
 def scratch_dir() -> Path:
@@ -119,7 +120,13 @@ def reset_library_state():
     from geoh5py.workspace import Workspace
 
     Workspace._active_ref = type(None)  # type: ignore
+    global _cases
     gc.collect()
+    _cases += 1
+    if _cases % 20 == 0:
+        # everything alive at a case boundary belongs to the harness / Hypothesis: move it out of the
+        # collector's way so that the per-case gc.collect() stays cheap on long runs
+        gc.freeze()
 
 
 def close_quietly(*workspaces):
